@@ -160,18 +160,46 @@ def apply(ctx, tree, op, now):
     return run_cmd(ctx, tree, op, now)
 
 
+class ScenarioFailure(Exception):
+    def __init__(self, op, res, want, step, tree):
+        super().__init__(f"scenario step {step} `{label(op)}` exited {res.exit} (expected {want}) {res.exc or ''} {res.err[-200:]}")
+        self.op, self.res, self.want, self.step, self.tree = op, res, want, step, tree
+
+
+FAILURES = None   # a list while scenario failures are being collected instead of raised
+
+
+class collecting:
+    """with ops.collecting() as fails: ...   - build() returns None for a scenario whose step does not give the expected
+    exit code and appends the ScenarioFailure to `fails` (the caller decides whether that is a violation of its own
+    property or a scenario it has to skip)"""
+
+    def __enter__(self):
+        global FAILURES
+        FAILURES = []
+        return FAILURES
+
+    def __exit__(self, *a):
+        global FAILURES
+        FAILURES = None
+
+
 def build(ctx, tree, oplist, now=sub.NOW0 - 1000, step=10, expect=None):
     """run a list of ops from tree; clock advances by `step` per command. returns final tree.
-    expect: optional list of expected exit codes for the command ops (harness error when violated)"""
-    from .engine import HarnessError
+    expect: optional list of expected exit codes for the command ops"""
     i = 0
     for op in oplist:
+        pre = tree
         res, tree = apply(ctx, tree, op, now)
         if res is not None:
             now += step
             if expect is not None:
-                if res.exit != expect[i]:
-                    raise HarnessError(f"scenario builder: {op} exited {res.exit} (expected {expect[i]}): {res.err[-300:]} {res.exc}")
+                if res.exit != expect[i] or res.exc:
+                    f = ScenarioFailure(op, res, expect[i], i, pre)
+                    if FAILURES is None:
+                        raise f
+                    FAILURES.append(f)
+                    return None
                 i += 1
     return tree
 
